@@ -38,6 +38,24 @@ func c14FromRef(t vt.TB, p sm2ref.Point) *SM2Point {
 	return q
 }
 
+// c14Construct builds the library's object for a reference point through one of the exported constructors (drawn), so that
+// objects of every origin end up as receivers of in-place operations and as arguments of the multiplications.
+func c14Construct(t *rapid.T, label string, p sm2ref.Point) (*SM2Point, string) {
+	how := gen.Pick(t, label+".ctor", "setbytes", "fromxy", "fromxy", "generator-set")
+	q := c14FromRef(t, p)
+	if p.Inf && how == "fromxy" {
+		how = "setbytes"
+	}
+	switch how {
+	case "fromxy":
+		x, y := *q.x.GetRaw(), *q.y.GetRaw()
+		return NewFromXY(&x, &y), how
+	case "generator-set":
+		return NewSM2Generator().Set(q), how
+	}
+	return q, how
+}
+
 func c14Compare(t vt.TB, rec *stats.Recorder, sig, what string, got *SM2Point, err error, want sm2ref.Point, detail string) {
 	if err != nil {
 		vt.Fail(t, rec, sig+":error", "%s returned error %v\n%s", what, err, detail)
@@ -312,17 +330,17 @@ func TestVerif_C14_MixedDigits(t *testing.T) {
 // and fresh objects with equal coordinates are mixed in — results must only depend on the point's current value.
 func TestVerif_C14_PointObjectHistory(t *testing.T) {
 	rec := stats.Get("C14", "object-history")
-	rec.Rule("rapid history of 3..8 steps on one persistent *SM2Point A (and one persistent scalar buffer): each step changes A in place (SetBytes of another point, Set, A.Add(A,G), A.Double(A), A.Negate(A), or leaves it) and then calls ScalarMixedMult_Unsafe(g,A,s), ScalarMult(A,k) or the same on a FRESH object with A's coordinates; oracle sm2ref on A's current value. Non-trivial: a history in which A was mutated between two multiplications (every history); distinct by history.")
+	rec.Rule("rapid history of 3..8 steps on one persistent *SM2Point A (and one persistent scalar buffer); objects are built through a drawn exported constructor (NewSM2Point+SetBytes, NewFromXY on raw coordinates, NewSM2Generator+Set): each step changes A in place (SetBytes of another point, Set from an object of any origin, replace A by a newly constructed object, A.Add(A,G), A.Double(A), A.Negate(A), or leaves it) and then calls ScalarMixedMult_Unsafe(g,A,s), ScalarMult(A,k) or the same on a FRESH object with A's coordinates; oracle sm2ref on A's current value. Non-trivial: a history in which A was mutated between two multiplications (every history); distinct by history.")
 	t.Cleanup(stats.FlushAll)
 	rapid.Check(t, func(t *rapid.T) {
 		r := gen.Rand(t, "seed")
 		cur, _ := c14Point(t, "P0")
-		A := c14FromRef(t, cur)
+		A, ctor := c14Construct(t, "A", cur)
 		scal := make([]byte, 32)
 		steps := gen.Int(t, "steps", 3, 8)
 		var hist []byte
 		for i := 0; i < steps; i++ {
-			switch mut := gen.Pick(t, "mutate", "setbytes", "set", "add", "double", "negate", "keep"); mut {
+			switch mut := gen.Pick(t, "mutate", "setbytes", "set", "reconstruct", "add", "double", "negate", "keep"); mut {
 			case "setbytes":
 				cur, _ = c14Point(t, "P")
 				if _, err := A.SetBytes(sm2ref.Encode(cur)); err != nil {
@@ -330,7 +348,14 @@ func TestVerif_C14_PointObjectHistory(t *testing.T) {
 				}
 			case "set":
 				cur, _ = c14Point(t, "P")
-				A.Set(c14FromRef(t, cur))
+				src, _ := c14Construct(t, "src", cur)
+				A.Set(src)
+			case "reconstruct":
+				cur, _ = c14Point(t, "P")
+				if cur.Inf {
+					cur = sm2ref.G
+				}
+				A, _ = c14Construct(t, "A", cur)
 			case "add":
 				A.Add(A, NewSM2Generator())
 				cur = sm2ref.Add(cur, sm2ref.G)
@@ -366,7 +391,7 @@ func TestVerif_C14_PointObjectHistory(t *testing.T) {
 			obj := A
 			fresh := gen.Bool(t, "fresh")
 			if fresh {
-				obj = c14FromRef(t, cur)
+				obj, _ = c14Construct(t, "fresh", cur)
 			}
 			which := gen.Pick(t, "call", "mixed", "mixed", "variable")
 			hist = append(hist, []byte(which)[0], byte(i))
@@ -411,7 +436,7 @@ func TestVerif_C14_PointObjectHistory(t *testing.T) {
 			got, err := ScalarBaseMult(kb)
 			c14Compare(t, rec, "C14:history:base-after", "ScalarBaseMult after a history of multiplications whose results were modified in place", got, err, sm2ref.MulBytes(kb, sm2ref.G), fmt.Sprintf("k=%x", kb))
 		}
-		rec.Case(stats.Hash(hist, sm2ref.Encode(cur), scal), true, fmt.Sprintf("steps:%d", steps))
+		rec.Case(stats.Hash(hist, sm2ref.Encode(cur), scal), true, fmt.Sprintf("steps:%d", steps), "first-object:"+ctor)
 		if rec.WantSample("history") {
 			rec.Sample("history", map[string]interface{}{"steps": steps, "last_point": stats.Hex(sm2ref.Encode(cur))})
 		}
